@@ -1,5 +1,6 @@
 (* C05 — Cached tour state always equals recomputation from the bare tours. *)
-From VRP Require Import Base.Tac Model.Core Spec.Feasible Model.Eval Spec.Inv Model.Cache Proofs.CacheP Model.CacheX Proofs.CacheXP.
+From VRP Require Import Base.Tac Model.Core Spec.Feasible Model.Eval Spec.Inv Model.Cache Proofs.CacheP Model.CacheF Proofs.CacheFP
+  Model.CacheX Proofs.CacheXP.
 
 (* The protocol of RouteContext over ANY table of features with distinct fields: the invariant
    "not stale -> every field maintained on route level equals its recomputation from the tour" is kept by every operation. *)
@@ -221,3 +222,277 @@ Theorem C05_nested_clear_repaired :
   rc_state r' K_INTERVALS = Some (XIntervals [(0%nat, 1%nat); (2%nat, 5%nat)]) /\
   CacheOK _ _ _ (flat_fs _ _ _ shared_goal) r'.
 Proof. exact nested_clear_repaired. Qed.
+
+(* ======================= cached fields that READ OTHER CACHED FIELDS; per-solution aggregates (Model/CacheF.v) =======================
+   A handler computes its field from the tour AND the route state as it is when its turn comes (goal order).  `SC t k` is the field
+   k as a function of the bare tour t; a handler is `Sound` when it computes that function whenever the keys it reads hold theirs.
+   `good_from ok avail es` = the keys a pass makes right: the handler fires (`ok`) and every key it reads is good before it. *)
+Theorem C05_f_route_state_fresh : forall tour job value svalue (SC : tour -> cache value) (es : list (CacheF.entry tour job value svalue)) r,
+  NoDup (route_keys tour job value svalue es) -> (forall f, In (ERoute f) es -> Sound tour job value SC f) ->
+  rc_stale r = true ->
+  let r' := accept_route_state_d tour job value svalue es r in
+  rc_stale r' = false /\ rc_tour r' = rc_tour r /\
+  forall k, In k (good_from tour job value svalue (fun f => d_on_route f) [] es) -> key_ok tour value SC k r'.
+Proof. exact route_state_fresh. Qed.
+
+(* "after every single insertion": the keys of `avail` were right and the insertion does not concern them; every key the
+   insertion pass makes good is right on the tour as it is now - whatever the other fields held before *)
+Theorem C05_f_insertion_fresh : forall tour job value svalue (SC : tour -> cache value) (es : list (CacheF.entry tour job value svalue)) ins j r avail,
+  NoDup (route_keys tour job value svalue es) -> (forall f, In (ERoute f) es -> Sound tour job value SC f) ->
+  (forall f, In (ERoute f) es -> d_on_insertion f j = true -> ~ In (d_key f) avail) ->
+  (forall k, In k avail -> key_ok tour value SC k r /\ SC (ins j (rc_tour r)) k = SC (rc_tour r) k) ->
+  let r' := apply_insertion_d tour job value svalue es ins j r in
+  rc_tour r' = ins j (rc_tour r) /\
+  forall k, In k (good_from tour job value svalue (fun f => d_on_insertion f j) avail es) -> key_ok tour value SC k r'.
+Proof. exact insertion_fresh_d. Qed.
+
+(* hand-over: no tour is stale, the tours are unchanged, every good key is right on every tour, every good entry of the solution
+   state is its handler applied to FRESH contexts of the tours (a function of the tours alone) *)
+Theorem C05_f_handover_fresh : forall tour job value svalue (SC : tour -> cache value) (es : list (CacheF.entry tour job value svalue)) s,
+  NoDup (route_keys tour job value svalue es) -> NoDup (agg_keys tour job value svalue es) ->
+  (forall f, In (ERoute f) es -> Sound tour job value SC f) ->
+  Forall (fun r => rc_stale r = false -> forall k, In k (good_from tour job value svalue (refreshes_d tour job value) [] es) -> key_ok tour value SC k r) (s_routes s) ->
+  let s' := accept_solution_state_d tour job value svalue es s in
+  map rc_tour (s_routes s') = map rc_tour (s_routes s) /\
+  Forall (fun r' => rc_stale r' = false /\ forall k, In k (good_from tour job value svalue (refreshes_d tour job value) [] es) -> key_ok tour value SC k r') (s_routes s') /\
+  forall a, In (EAgg a) es -> a_ext tour value svalue a -> In (a_key a) (good_aggs tour job value svalue (refreshes_d tour job value) [] es) ->
+            s_aggs s' (a_key a) = a_read a (map (fresh tour value SC) (map rc_tour (s_routes s'))).
+Proof. exact handover_fresh_d. Qed.
+
+(* the invariant of the per-solution aggregates (SolutionState entries) on its own *)
+Theorem C05_aggregates_fresh_after_accept_solution_state :
+  forall tour job value svalue (SC : tour -> cache value) (es : list (CacheF.entry tour job value svalue)) s,
+  NoDup (route_keys tour job value svalue es) -> NoDup (agg_keys tour job value svalue es) ->
+  (forall f, In (ERoute f) es -> Sound tour job value SC f) ->
+  Forall (fun r => rc_stale r = false -> forall k, In k (good_from tour job value svalue (refreshes_d tour job value) [] es) -> key_ok tour value SC k r) (s_routes s) ->
+  let s' := accept_solution_state_d tour job value svalue es s in
+  forall a, In (EAgg a) es -> a_ext tour value svalue a -> In (a_key a) (good_aggs tour job value svalue (refreshes_d tour job value) [] es) ->
+            s_aggs s' (a_key a) = a_read a (map (fresh tour value SC) (map rc_tour (s_routes s'))).
+Proof. exact aggregates_fresh_d. Qed.
+
+(* InsertionContext::restore / finalize_insertion_ctx = accept_solution_state, THEN remove_empty_routes: the aggregates are those
+   of ALL tours the solution held while the handlers ran - the tours without jobs dropped afterwards included (finding C05-F5
+   when there is one: C05_restore_counts_empty_tour_refuted) *)
+Theorem C05_restore_aggregates_of_the_tours_before_the_cleanup :
+  forall tour job value svalue (SC : tour -> cache value) (is_empty : tour -> bool) (es : list (CacheF.entry tour job value svalue)) s,
+  NoDup (route_keys tour job value svalue es) -> NoDup (agg_keys tour job value svalue es) ->
+  (forall f, In (ERoute f) es -> Sound tour job value SC f) ->
+  Forall (fun r => rc_stale r = false -> forall k, In k (good_from tour job value svalue (refreshes_d tour job value) [] es) -> key_ok tour value SC k r) (s_routes s) ->
+  let s' := restore_d tour job value svalue is_empty es s in
+  map rc_tour (s_routes s') = filter (fun t => negb (is_empty t)) (map rc_tour (s_routes s)) /\
+  forall a, In (EAgg a) es -> a_ext tour value svalue a -> In (a_key a) (good_aggs tour job value svalue (refreshes_d tour job value) [] es) ->
+            s_aggs s' (a_key a) = a_read a (map (fresh tour value SC) (map rc_tour (s_routes s))).
+Proof. exact restore_aggs_d. Qed.
+
+(* "objective values are a function of the tours only, two solutions with identical tours compare equal": whatever an objective
+   reads after a hand-over - tours, good keys, good aggregates - coincides for two solutions with the same tours *)
+Theorem C05_f_objective_function_of_tours :
+  forall tour job value svalue (SC : tour -> cache value) (result : Type) (es : list (CacheF.entry tour job value svalue)) s1 s2
+         (fitness : list (tour * list (option value)) * list (option svalue) -> result),
+  NoDup (route_keys tour job value svalue es) -> NoDup (agg_keys tour job value svalue es) ->
+  (forall f, In (ERoute f) es -> Sound tour job value SC f) -> (forall a, In (EAgg a) es -> a_ext tour value svalue a) ->
+  Forall (fun r => rc_stale r = false -> forall k, In k (good_from tour job value svalue (refreshes_d tour job value) [] es) -> key_ok tour value SC k r) (s_routes s1) ->
+  Forall (fun r => rc_stale r = false -> forall k, In k (good_from tour job value svalue (refreshes_d tour job value) [] es) -> key_ok tour value SC k r) (s_routes s2) ->
+  map rc_tour (s_routes s1) = map rc_tour (s_routes s2) ->
+  let G := good_from tour job value svalue (refreshes_d tour job value) [] es in
+  let A := good_aggs tour job value svalue (refreshes_d tour job value) [] es in
+  fitness (view_d tour value svalue G A (accept_solution_state_d tour job value svalue es s1)) =
+  fitness (view_d tour value svalue G A (accept_solution_state_d tour job value svalue es s2)).
+Proof. exact objective_function_d. Qed.
+
+(* "discard the caches and recompute": running every read function on an empty cache in an order in which each comes after the
+   keys it reads defines the function of the tour that every handler is sound for *)
+Theorem C05_recompute_sound : forall tour job value (fs : list (dfeature tour job value)),
+  NoDup (map d_key fs) -> ordered_b tour job value [] fs = true ->
+  (forall f, In f fs -> reads_only tour job value f) ->
+  forall f, In f fs -> Sound tour job value (run_all tour job value fs) f.
+Proof. exact ideal_sound. Qed.
+
+(* ---- the concrete goal table (transport, capacity / reload, compatibility, groups, tour limits, recharge, tour order, work balance,
+   fast service) of ANY configuration whose two boolean side conditions evaluate to true (they are evaluated for every goal the
+   correspondence meets): every handler of the table is sound for `spec_cache` ---- *)
+Theorem C05_goal_sound : forall dur dist g, keys_ok dur dist g = true -> ideal_ok dur dist g = true ->
+  forall f, In (ERoute f) (goal_table dur dist g) -> Sound ftour fact fval (spec_cache dur dist g) f.
+Proof. exact goal_sound. Qed.
+
+Theorem C05_goal_route_state_fresh : forall dur dist g, keys_ok dur dist g = true -> ideal_ok dur dist g = true ->
+  forall r : rctx ftour fval, rc_stale r = true ->
+  let r' := accept_route_state_d ftour fact fval sval (goal_table dur dist g) r in
+  rc_stale r' = false /\ rc_tour r' = rc_tour r /\
+  forall k, In k (good_route dur dist g) -> key_ok ftour fval (spec_cache dur dist g) k r'.
+Proof. exact goal_route_state_fresh. Qed.
+
+Theorem C05_goal_insertion_fresh : forall dur dist g, keys_ok dur dist g = true -> ideal_ok dur dist g = true ->
+  forall ins j (r : rctx ftour fval) avail,
+  (forall f, In (ERoute f) (goal_table dur dist g) -> d_on_insertion f j = true -> ~ In (d_key f) avail) ->
+  (forall k, In k avail -> key_ok ftour fval (spec_cache dur dist g) k r /\
+                           spec_cache dur dist g (ins j (rc_tour r)) k = spec_cache dur dist g (rc_tour r) k) ->
+  let r' := apply_insertion_d ftour fact fval sval (goal_table dur dist g) ins j r in
+  rc_tour r' = ins j (rc_tour r) /\
+  forall k, In k (good_from ftour fact fval sval (fun f => d_on_insertion f j) avail (goal_table dur dist g)) ->
+            key_ok ftour fval (spec_cache dur dist g) k r'.
+Proof. exact goal_insertion_fresh. Qed.
+
+Theorem C05_goal_handover_fresh : forall dur dist g, keys_ok dur dist g = true -> ideal_ok dur dist g = true ->
+  forall s : sctx ftour fval sval,
+  Forall (fun r => rc_stale r = false -> forall k, In k (good_handover dur dist g) -> key_ok ftour fval (spec_cache dur dist g) k r) (s_routes s) ->
+  let s' := accept_solution_state_d ftour fact fval sval (goal_table dur dist g) s in
+  map rc_tour (s_routes s') = map rc_tour (s_routes s) /\
+  Forall (fun r' => rc_stale r' = false /\ forall k, In k (good_handover dur dist g) -> key_ok ftour fval (spec_cache dur dist g) k r') (s_routes s') /\
+  forall k, In k (good_handover_aggs dur dist g) -> s_aggs s' k = spec_aggs dur dist g (map rc_tour (s_routes s')) k.
+Proof. exact goal_handover_fresh. Qed.
+
+Theorem C05_goal_objective_function_of_tours : forall dur dist (result : Type) g, keys_ok dur dist g = true -> ideal_ok dur dist g = true ->
+  forall (s1 s2 : sctx ftour fval sval) (fitness : list (ftour * list (option fval)) * list (option sval) -> result),
+  Forall (fun r => rc_stale r = false -> forall k, In k (good_handover dur dist g) -> key_ok ftour fval (spec_cache dur dist g) k r) (s_routes s1) ->
+  Forall (fun r => rc_stale r = false -> forall k, In k (good_handover dur dist g) -> key_ok ftour fval (spec_cache dur dist g) k r) (s_routes s2) ->
+  map rc_tour (s_routes s1) = map rc_tour (s_routes s2) ->
+  fitness (view_d ftour fval sval (good_handover dur dist g) (good_handover_aggs dur dist g)
+                  (accept_solution_state_d ftour fact fval sval (goal_table dur dist g) s1)) =
+  fitness (view_d ftour fval sval (good_handover dur dist g) (good_handover_aggs dur dist g)
+                  (accept_solution_state_d ftour fact fval sval (goal_table dur dist g) s2)).
+Proof. exact goal_objective_function. Qed.
+
+(* ---- instances for the goal `cfg_full`: every modelled feature in the goal, the objectives after the cost objective ---- *)
+Theorem C05_handover_fresh_transport : forall dur dist s, HandoverInv dur dist cfg_full s ->
+  Forall (fun r' => rc_stale r' = false /\ forall k, In k [K_SCHED; K_LATEST; K_WAIT; K_DIST; K_DUR] -> key_ok ftour fval (spec_cache dur dist cfg_full) k r')
+         (s_routes (accept_solution_state_d ftour fact fval sval (goal_table dur dist cfg_full) s)).
+Proof. exact handover_fresh_transport. Qed.
+
+(* reloads.rs / route_intervals.rs / multi_trip.rs / capacity.rs: the reload intervals and the per-interval load profile *)
+Theorem C05_handover_fresh_reload : forall dur dist s, HandoverInv dur dist cfg_full s ->
+  Forall (fun r' => rc_stale r' = false /\ forall k, In k [K_RELOAD; K_CUR; K_PAST; K_FUT; K_MAXLOAD] -> key_ok ftour fval (spec_cache dur dist cfg_full) k r')
+         (s_routes (accept_solution_state_d ftour fact fval sval (goal_table dur dist cfg_full) s)).
+Proof. exact handover_fresh_reload. Qed.
+
+(* recharge.rs: the recharge intervals and the distance counters *)
+Theorem C05_handover_fresh_recharge : forall dur dist s, HandoverInv dur dist cfg_full s ->
+  Forall (fun r' => rc_stale r' = false /\ forall k, In k [K_RIVS; K_RDIST] -> key_ok ftour fval (spec_cache dur dist cfg_full) k r')
+         (s_routes (accept_solution_state_d ftour fact fval sval (goal_table dur dist cfg_full) s)).
+Proof. exact handover_fresh_recharge. Qed.
+
+(* fast_service.rs: the multi-job ranges, and the two other things its objective reads *)
+Theorem C05_handover_fresh_fast_service : forall dur dist s, HandoverInv dur dist cfg_full s ->
+  Forall (fun r' => rc_stale r' = false /\ forall k, In k [K_RANGES; K_SCHED; K_RELOAD] -> key_ok ftour fval (spec_cache dur dist cfg_full) k r')
+         (s_routes (accept_solution_state_d ftour fact fval sval (goal_table dur dist cfg_full) s)).
+Proof. exact handover_fresh_fast_service. Qed.
+
+(* tour_order.rs: the cached violation count is the sum over the tours of the result *)
+Theorem C05_handover_fresh_tour_order : forall dur dist s, HandoverInv dur dist cfg_full s ->
+  let s' := accept_solution_state_d ftour fact fval sval (goal_table dur dist cfg_full) s in
+  s_aggs s' A_ORDER = Some (SCount (fold_left (fun acc t => acc + tour_violations t) (map rc_tour (s_routes s')) 0)).
+Proof. exact handover_fresh_tour_order. Qed.
+
+(* work_balance.rs, objectives listed after the cost objective: the per-solution aggregate is the vector of the route estimates
+   computed from the tours alone (the per-route values themselves are NOT refreshed at hand-over: C05_work_balance_route_value_stale_refuted) *)
+Theorem C05_handover_fresh_work_balance_aggregates : forall dur dist s, HandoverInv dur dist cfg_full s ->
+  let s' := accept_solution_state_d ftour fact fval sval (goal_table dur dist cfg_full) s in
+  forall o, In o [OActivities; ODistance; ODuration] ->
+  s_aggs s' (K_BAL o) = Some (SVec (map (fun t => route_estimate true o t (spec_cache dur dist cfg_full t)) (map rc_tour (s_routes s')))).
+Proof. exact handover_fresh_work_balance_aggregates. Qed.
+
+(* tour_limits.rs: the limit duration is a function of the actor; the route-level handler sets it (next theorem), the
+   solution-level handlers leave it alone *)
+Theorem C05_limit_duration_of_the_actor : forall dur dist t,
+  spec_cache dur dist cfg_full t K_LIMIT = option_map VZ (fv_dur_limit (ft_veh t)).
+Proof. exact limit_spec. Qed.
+Theorem C05_handover_keeps_tour_limits : forall dur dist (s : sctx ftour fval sval),
+  Forall (fun r => key_ok ftour fval (spec_cache dur dist cfg_full) K_LIMIT r) (s_routes s) ->
+  Forall (fun r' => key_ok ftour fval (spec_cache dur dist cfg_full) K_LIMIT r')
+         (s_routes (accept_solution_state_d ftour fact fval sval (goal_table dur dist cfg_full) s)).
+Proof. exact handover_keeps_tour_limits. Qed.
+
+(* GoalContext::accept_route_state on a stale tour: everything cached per tour is right afterwards - the limit duration and the
+   work-balance route values included; only the group set (no route-level handler) is not *)
+Theorem C05_route_state_fresh_full : forall dur dist (r : rctx ftour fval), rc_stale r = true ->
+  let r' := accept_route_state_d ftour fact fval sval (goal_table dur dist cfg_full) r in
+  rc_stale r' = false /\ rc_tour r' = rc_tour r /\
+  forall k, In k [K_SCHED; K_LATEST; K_WAIT; K_DIST; K_DUR; K_RELOAD; K_CUR; K_PAST; K_FUT; K_MAXLOAD; K_COMPAT; K_LIMIT; K_RIVS; K_RDIST;
+                  K_BAL OActivities; K_BAL ODistance; K_BAL ODuration; K_RANGES] -> key_ok ftour fval (spec_cache dur dist cfg_full) k r'.
+Proof. exact route_state_fresh_full. Qed.
+
+(* after every single insertion (any job, any change of the tour, NO assumption on the context before) *)
+Theorem C05_insertion_fresh_reload : forall dur dist ins j (r : rctx ftour fval),
+  forall k, In k [K_RELOAD; K_CUR; K_PAST; K_FUT; K_MAXLOAD] ->
+  key_ok ftour fval (spec_cache dur dist cfg_untagged) k (apply_insertion_d ftour fact fval sval (goal_table dur dist cfg_untagged) ins j r).
+Proof. exact insertion_fresh_reload. Qed.
+Theorem C05_insertion_fresh_recharge : forall dur dist ins j (r : rctx ftour fval),
+  forall k, In k [K_RIVS; K_RDIST] ->
+  key_ok ftour fval (spec_cache dur dist cfg_untagged) k (apply_insertion_d ftour fact fval sval (goal_table dur dist cfg_untagged) ins j r).
+Proof. exact insertion_fresh_recharge. Qed.
+Theorem C05_insertion_fresh_fast_service : forall dur dist ins j (r : rctx ftour fval),
+  forall k, In k [K_RANGES; K_SCHED; K_RELOAD] ->
+  key_ok ftour fval (spec_cache dur dist cfg_untagged) k (apply_insertion_d ftour fact fval sval (goal_table dur dist cfg_untagged) ins j r).
+Proof. exact insertion_fresh_fast_service. Qed.
+Theorem C05_insertion_fresh_work_balance : forall dur dist ins j (r : rctx ftour fval),
+  forall k, In k [K_BAL OActivities; K_BAL ODistance; K_BAL ODuration] ->
+  key_ok ftour fval (spec_cache dur dist cfg_untagged) k (apply_insertion_d ftour fact fval sval (goal_table dur dist cfg_untagged) ins j r).
+Proof. exact insertion_fresh_work_balance. Qed.
+Theorem C05_insertion_fresh_all : forall dur dist ins j (r : rctx ftour fval),
+  let r' := apply_insertion_d ftour fact fval sval (goal_table dur dist cfg_untagged) ins j r in
+  rc_tour r' = ins j (rc_tour r) /\
+  forall k, In k [K_SCHED; K_LATEST; K_WAIT; K_DIST; K_DUR; K_RELOAD; K_CUR; K_PAST; K_FUT; K_MAXLOAD; K_RIVS; K_RDIST;
+                  K_BAL OActivities; K_BAL ODistance; K_BAL ODuration; K_RANGES] -> key_ok ftour fval (spec_cache dur dist cfg_untagged) k r'.
+Proof. exact insertion_fresh_untagged. Qed.
+Theorem C05_insertion_keeps_tour_limits : forall dur dist ins j (r : rctx ftour fval),
+  key_ok ftour fval (spec_cache dur dist cfg_untagged) K_LIMIT r ->
+  spec_cache dur dist cfg_untagged (ins j (rc_tour r)) K_LIMIT = spec_cache dur dist cfg_untagged (rc_tour r) K_LIMIT ->
+  key_ok ftour fval (spec_cache dur dist cfg_untagged) K_LIMIT (apply_insertion_d ftour fact fval sval (goal_table dur dist cfg_untagged) ins j r).
+Proof. exact insertion_keeps_tour_limits. Qed.
+
+(* ---- the three findings about WorkBalanceState, on concrete tours (udur a b = |a - b|, udist = 2 |a - b|) ---- *)
+(* C05-F3: the per-route value has no solution-level refresh: a job leaves the tour (ruin), accept_solution_state runs, the tour is
+   flagged fresh, the cached value is the old one (2 activities; the tour has 1) *)
+Theorem C05_work_balance_route_value_stale_refuted :
+  let es := goal_table udur udist cfg_activities in
+  let s' := accept_solution_state_d ftour fact fval sval es
+              (mkS [route_mut ftour fval (drop_job 2) (wfresh cfg_activities wtour2)] (fun _ => None)) in
+  exists r', s_routes s' = [r'] /\ rc_stale r' = false /\ rc_tour r' = wtour1 /\
+             rc_state r' (K_BAL OActivities) = Some (VZ 2) /\
+             spec_cache udur udist cfg_activities wtour1 (K_BAL OActivities) = Some (VZ 1).
+Proof. exact balance_route_value_stale. Qed.
+
+(* C05-F4, per route: the distance balance listed BEFORE the cost objective reads the total distance before TransportState refreshes
+   it: 0 on a rebuilt tour (distance 12), the distance before the insertion (12) after an insertion (20) *)
+Theorem C05_work_balance_order_route_refuted :
+  let es := goal_table udur udist cfg_distance_first in
+  let r0 := wfresh cfg_distance_first wtour1 in
+  let r1 := apply_insertion_d ftour fact fval sval es (ins_act 2) (wact 2 5 3) r0 in
+  rc_state r0 (K_BAL ODistance) = Some (VZ 0) /\ spec_cache udur udist cfg_distance_first wtour1 (K_BAL ODistance) = Some (VZ 12) /\
+  rc_tour r1 = wtour2 /\
+  rc_state r1 (K_BAL ODistance) = Some (VZ 12) /\ spec_cache udur udist cfg_distance_first wtour2 (K_BAL ODistance) = Some (VZ 20).
+Proof. exact balance_order_route. Qed.
+
+(* C05-F4, per solution: the max-load balance always precedes the capacity feature: its aggregate (the objective value) is computed
+   from the max-future loads of BEFORE the refresh of a changed tour (5/10; the tour gives 2/10) *)
+Theorem C05_work_balance_order_aggregate_refuted :
+  let es := goal_table udur udist cfg_max_load in
+  let s' := accept_solution_state_d ftour fact fval sval es
+              (mkS [route_mut ftour fval (drop_job 2) (wfresh cfg_max_load wtour2)] (fun _ => None)) in
+  map rc_tour (s_routes s') = [wtour1] /\ Forall (fun r => rc_stale r = false) (s_routes s') /\
+  s_aggs s' (K_BAL OMaxLoad) = Some (SVec [VQ 5 10]) /\
+  spec_aggs udur udist cfg_max_load [wtour1] (K_BAL OMaxLoad) = Some (SVec [VQ 2 10]).
+Proof. exact balance_order_aggregate. Qed.
+
+(* C05-F5: restore: the aggregate counts the tour that was emptied and is dropped afterwards ([2; 0]; the tours give [2]) *)
+Theorem C05_restore_counts_empty_tour_refuted :
+  let es := goal_table udur udist cfg_activities in
+  let s' := restore_d ftour fact fval sval no_jobs es
+              (mkS [wfresh cfg_activities wtour2; route_mut ftour fval (drop_job 1) (wfresh cfg_activities wtour1)] (fun _ => None)) in
+  map rc_tour (s_routes s') = [wtour2] /\
+  s_aggs s' (K_BAL OActivities) = Some (SVec [VZ 2; VZ 0]) /\
+  spec_aggs udur udist cfg_activities [wtour2] (K_BAL OActivities) = Some (SVec [VZ 2]).
+Proof. exact restore_counts_empty_tour. Qed.
+
+(* non-vacuity of the hand-over invariant and of the side conditions: cfg_full passes both checks; a stale context with an empty
+   cache satisfies the invariant, so does the context accept_solution_state makes of it, which holds the values *)
+Theorem C05_f_nonvacuous :
+  (forall dur dist, keys_ok dur dist cfg_full = true /\ ideal_ok dur dist cfg_full = true) /\
+  let s0 := mkS [mkRctx wtour2 (fun _ : nat => @None fval) true] (fun _ : nat => @None sval) in
+  let s1 := accept_solution_state_d ftour fact fval sval (goal_table udur udist cfg_full) s0 in
+  HandoverInv udur udist cfg_full s0 /\ HandoverInv udur udist cfg_full s1 /\
+  (exists r, s_routes s1 = [r] /\ rc_stale r = false /\ rc_state r K_DIST = Some (VZ 20) /\
+             rc_state r K_FUT = Some (VList [5; 3; 0; 0]) /\ rc_state r K_RIVS = Some (VIvs [(0%nat, 3%nat)]) /\
+             rc_state r K_GROUPS = Some (VSet [])) /\
+  s_aggs s1 (K_BAL ODistance) = Some (SVec [VZ 20]) /\ s_aggs s1 A_ORDER = Some (SCount 0).
+Proof. split; [exact full_checks|exact full_nonvacuous]. Qed.
